@@ -244,5 +244,6 @@ def run(prop, tier, seed, only_replay=None):
     if machinery:
         for m in machinery[:10]:
             print("MACHINERY-FAILURE: " + m, file=sys.stderr)
-        return 2
+        # violations already established against the implementation stand, whatever else went wrong afterwards
+        return 1 if bysig else 2
     return 1 if bysig else 0
